@@ -64,7 +64,7 @@ def gen_task(rng, o, nb, main):
             prog.append(['await', rng.randrange(nslots)])
         elif r < 0.86 + o['p_waitidle']:
             prog.append(['waitidle', rng.randrange(nb)])
-        elif r < 0.86 + o['p_waitidle'] + o['p_redispatch']:
+        elif r < 0.86 + o['p_waitidle'] + o['p_redispatch'] or (o['p_redispatch'] > 0.2 and rng.random() < 0.5):
             prog.append(['redispatch', rng.randrange(nslots), rng.randrange(nb)])
     if not main:
         prog.insert(0, ['sleep', rng.choice([0, 1 / 64, 3 / 64, 9 / 64])])
@@ -100,6 +100,54 @@ def gen_core(rng, **over):
         sc['handlers'].append(h)
     for x in range(rng.randint(*o['ntasks'])):
         sc['tasks'].append(gen_task(rng, o, nb, x == 0))
+    return sc
+
+
+def gen_chain(rng, p_timeout=0.5, p_await=0.8, p_parallel=0.0, nb=(1, 2), maxh=(50, 50, None, 3), p_unrelated=0.3, p_raise=0.05, **_):
+    """nested chains A -> B -> C -> D: each level's handler dispatches the next level (to any bus) and mostly
+    awaits it; every level may have a second handler; timeouts on random levels (then serial buses only)"""
+    n = rng.randint(*nb)
+    with_to = rng.random() < p_timeout
+    sc = {'buses': [{'parallel': (not with_to) and rng.random() < p_parallel, 'maxh': rng.choice(maxh), 'wal': False} for _ in range(n)],
+          'types': {}, 'handlers': [], 'tasks': []}
+    order = ['A', 'B', 'C', 'D']
+    depth = rng.randint(2, 4)
+    for t in order:
+        sc['types'][t] = {'timeout': rng.choice(TIMEOUTS) if (with_to and rng.random() < 0.5) else None}
+    home = {t: rng.randrange(n) for t in order}
+    for li, t in enumerate(order[:depth]):
+        last = li == depth - 1
+        prog = []
+        if rng.random() < 0.5:
+            prog.append(['sleep', rng.choice(SLEEPS)])
+        if not last:
+            nxt = order[li + 1]
+            prog.append(['dispatch', home[nxt], nxt, 0])
+            if rng.random() < 0.3:
+                prog.append(['sleep', rng.choice(SLEEPS)])
+            if rng.random() < p_unrelated:
+                prog.append(['dispatch', rng.randrange(n), 'D', 1])
+            if rng.random() < p_await:
+                prog.append(['await', 0])
+        if rng.random() < 0.5:
+            prog.append(['sleep', rng.choice(SLEEPS)])
+        if rng.random() < p_raise:
+            prog.append(['raise'])
+        sc['handlers'].append({'bus': home[t], 'key': t, 'kind': 'async', 'prog': prog})
+        for _ in range(rng.choice([0, 0, 1, 1, 2])):
+            kind = rng.choice(['async', 'async', 'sync'])
+            p2 = [] if kind == 'sync' else [['sleep', rng.choice(SLEEPS)]]
+            sc['handlers'].append({'bus': home[t], 'key': rng.choice([t, t, '*']), 'kind': kind, 'prog': p2})
+    rng.shuffle(sc['handlers'])
+    main = [['dispatch', home['A'], 'A', 0]]
+    if rng.random() < 0.4:
+        main.append(['dispatch', rng.randrange(n), rng.choice('BCD'), 1])
+    main.append(['await', 0])
+    if rng.random() < 0.3:
+        main.append(['waitidle', rng.randrange(n)])
+    sc['tasks'].append(main)
+    if rng.random() < 0.3:
+        sc['tasks'].append([['sleep', rng.choice([1 / 64, 5 / 64, 17 / 64])], ['dispatch', rng.randrange(n), rng.choice('ABCD'), 0]])
     return sc
 
 
